@@ -250,7 +250,8 @@ def split_addrange_algebra(ctx, rule):
     # ---------------------------------------------------------------- R09.5 cursor algebra of the concurrent-insert splitter
     from ..linalg import lin, seq_len, eq, sub, fmt
     sa = repo.func(GEN + ':_split_addrange')
-    wl = [n for n in walk_no_nested(sa) if isinstance(n, ast.While)]
+    # the main loop, whatever its form (while with a manual cursor, for/enumerate with a skip flag): the outermost loop of the function
+    wl = [n for n in sa.body if isinstance(n, (ast.While, ast.For))]
     if len(wl) != 1:
         raise AnalysisError('_split_addrange: main loop not found')
     # names are derived, not assumed: the decision builder, and the two cursors by the way they are used
